@@ -379,7 +379,25 @@ func (w *cliWorld) peerSaw(raw string) {
 			w.queueDefective(q)
 		}
 		// interleave server-initiated traffic and replies for ids nobody uses
-		switch g.Weighted("extra", []int{12, 2, 2, 2}) {
+		switch g.Weighted("extra", []int{12, 2, 2, 2, 3}) {
+		case 4:
+			// records a sloppy or hostile peer may send: none of them answers a request
+			w.nrep++
+			odd := []string{
+				`[]`,
+				`[17]`,
+				`{"jsonrpc":"2.0","id":null,"result":{"r":"nullid%d"}}`,
+				`{"jsonrpc":"2.0","result":{"r":"noid%d"}}`,
+				`{"jsonrpc":"2.0","id":"` + ob.ID + `","result":{"r":"stringified%d"}}`,
+				`{"jsonrpc":"2.0","id":` + ob.ID + `.0,"result":{"r":"fractional%d"}}`,
+				`{"jsonrpc":"2.0","id":[` + ob.ID + `],"result":{"r":"arrayid%d"}}`,
+				`"just a string"`,
+				`{"jsonrpc":"2.0","id":` + ob.ID + `0000,"error":{"code":1,"message":"otherid%d"}}`,
+			}[g.Int("oddrecord", 9)]
+			if strings.Contains(odd, "%d") {
+				odd = fmt.Sprintf(odd, w.nrep)
+			}
+			w.outbox = append(w.outbox, odd)
 		case 1:
 			w.nrep++
 			w.outbox = append(w.outbox, fmt.Sprintf(`{"jsonrpc":"2.0","id":%d,"result":{"r":"unknown%d"}}`, 900000+w.nrep, w.nrep))
